@@ -21,6 +21,12 @@ import traceback
 
 from .. import worldlib
 
+BUDGET_TOOL = 4
+
+
+class FaultOverrun(BaseException):
+    """A stack-exhaustion fault sent the checker into a (practically) endless retry: end of world."""
+
 TOKEN_RE = re.compile(r"<test input [0-9a-f]{8,}>")
 FILE_RE = re.compile(r"\b[0-9a-f]{64}\.py")
 ADDR_RE = re.compile(r"0x[0-9a-fA-F]{6,}")
@@ -152,6 +158,8 @@ class World:
             if stack:
                 return self.limited(lambda: self.run_visitor(pid, code, mod, annotate), stack)
             return self.run_visitor(pid, code, mod, annotate)
+        except FaultOverrun:
+            return {"overrun": True}
         except BaseException as e:
             return {"escaped": self.norm("".join(traceback.format_exception_only(type(e), e)))[:500]}
 
@@ -353,11 +361,32 @@ class World:
             depth += 1
             f = f.f_back
         old = sys.getrecursionlimit()
+        # Catch-all handlers at several levels of the checker each retry on RecursionError, which
+        # can take exponentially long (and has ended in a C stack overflow): the faulted check gets a
+        # budget of Python calls - a deterministic count, not a wall clock - and the world ends
+        # (cleanly, with everything observed so far) when it is used up.
+        mon = sys.monitoring
+        budget = int(self.spec.get("fault_call_budget", 3000000))
+        calls = [0]
+
+        def on_start(code, offset):
+            calls[0] += 1
+            if calls[0] > budget:
+                mon.set_events(BUDGET_TOOL, 0)
+                raise FaultOverrun()
+
+        mon.use_tool_id(BUDGET_TOOL, "verif-budget")
+        mon.register_callback(BUDGET_TOOL, mon.events.PY_START, on_start)
+        mon.set_events(BUDGET_TOOL, mon.events.PY_START)
         sys.setrecursionlimit(depth + margin)
         try:
             return fn()
         finally:
             sys.setrecursionlimit(old)
+            mon.set_events(BUDGET_TOOL, 0)
+            mon.register_callback(BUDGET_TOOL, mon.events.PY_START, None)
+            mon.free_tool_id(BUDGET_TOOL)
+            self.last_fault_calls = calls[0]
 
     def run(self):
         annotate_default = bool(self.spec.get("annotate", True))
@@ -374,6 +403,11 @@ class World:
                 elif op.get("stack"):
                     rec["stack"] = op["stack"]
                     rec["obs"] = self.direct(lambda: self.do_check(pid, ann, stack=op["stack"]))
+                    rec["calls"] = self.last_fault_calls
+                    if "overrun" in rec["obs"]:
+                        rec["aborted"] = True
+                        self.out.emit(rec)
+                        break
                     rec["inv"] = self.invariants()
                 else:
                     rec["obs"] = self.direct(lambda: self.do_check(pid, ann))
